@@ -8,8 +8,8 @@ OPT = "./internal/app/optimization"
 
 REGISTRY = {
     "C20": dict(
-        level="exploration",
-        units=[dict(pkg=APP, test="TestVerifC20Inputs", quick=1600, thorough=80000, shards_quick=16, shards_thorough=16),
+        level="exploration", death_is_violation=True,
+        units=[dict(pkg=APP, test="TestVerifC20Inputs", quick=1600, thorough=80000, shards_quick=16, shards_thorough=16, flight=True),
                dict(pkg=APP, test="TestVerifC20Leak", quick=64, thorough=1200, shards_quick=16, shards_thorough=16),
                # other properties' histories re-run with "a daemon panic is the violation"
                dict(pkg=APP, test="TestVerifC09", env={"VERIF_PANIC_IS_VIOLATION": "1"}, quick=800, thorough=30000, shards_quick=16, shards_thorough=16),
